@@ -6,7 +6,8 @@ import scen, sprop, oracle_tp, refpeer as R
 from scen import payload
 
 FILES = ['theories/Base.v', 'theories/gen/Codec.v', 'theories/gen/Tp21Gen.v', 'theories/gen/CaGen.v', 'theories/gen/Tp22Gen.v', 'theories/CodecGlue.v',
-         'theories/Model21.v', 'theories/Model22.v', 'theories/Replay21.v', 'theories/Replay22.v', 'proofs/CodecProofs.v', 'proofs/Flat.v', 'proofs/MpgProofs.v']
+         'theories/Model21.v', 'theories/Model22.v', 'theories/Replay21.v', 'theories/Replay22.v', 'proofs/CodecProofs.v', 'proofs/Flat.v', 'proofs/MpgProofs.v',
+         'proofs/NoOversleep22.v']
 LEGAL = [0, 1, 2, 3, 4, 5, 6, 7, 8, 12, 16, 20, 24, 32, 48, 64]
 FBFF, FEFF = 2, 3
 
